@@ -304,6 +304,24 @@ func c03Directed() []struct {
 			}
 		}
 	}
+	// defaults that are containers (list, map, sub-object), on a map-based object and below a list
+	{
+		inner := func() *gen.Shape {
+			return &gen.Shape{Kind: gen.KObject, ID: "Inner", Props: []*gen.Prop{{Name: "a", T: intT()}, {Name: "tags", T: &gen.Shape{Kind: gen.KList, Items: &gen.Shape{Kind: gen.KString}}, Default: d(`["x","y"]`)}}}
+		}
+		obj := &gen.Shape{Kind: gen.KObject, ID: "Defs", Props: []*gen.Prop{
+			{Name: "l", T: &gen.Shape{Kind: gen.KList, Items: intT()}, Default: d(`[1,2,3]`)},
+			{Name: "m", T: &gen.Shape{Kind: gen.KMap, Keys: &gen.Shape{Kind: gen.KString}, Vals: intT()}, Default: d(`{"k":1,"j":2}`)},
+			{Name: "o", T: inner(), Default: d(`{"a": 9}`)},
+			{Name: "n", T: intT()}}}
+		out = append(out, struct {
+			shape *gen.Shape
+			raws  []any
+		}{obj, []any{
+			map[string]any{}, map[string]any{"n": int64(1)}, map[string]any{"l": []any{int64(7)}}, map[string]any{"o": map[string]any{}}, map[string]any{},
+			map[string]any{"m": map[string]any{"z": int64(5)}}, map[string]any{"o": map[string]any{"a": int64(1)}}, map[string]any{},
+		}})
+	}
 	// property IDs that are digits only, and input maps whose keys are the same digits as numbers: a key that is not a
 	// string is not a property ID, whatever it would print as
 	for _, req := range []bool{true, false} {
@@ -495,7 +513,13 @@ func runC03(c *wk.Ctx) {
 					for _, raw := range dc.raws {
 						c.Count("directed-struct-defaults")
 						c.Eval(wk.Hash64(descr, cmpx.Canon(raw)), true)
-						judgeUnserialize(c, "C03", t, dc.shape, env, gen.CopyRaw(raw), descr, "directed: defaults of by-value sub-objects")
+						// what a call returned is the caller's: overwriting every container in it must not change what
+						// the next call fills in for a property that is left out
+						if native, acc := judgeUnserialize(c, "C03", t, dc.shape, env, gen.CopyRaw(raw), descr, "directed: defaults (results of earlier calls overwritten in place)"); acc && native != nil {
+							if scramble(reflect.ValueOf(&native).Elem(), 0) > 0 {
+								c.Count("results_overwritten_in_place")
+							}
+						}
 					}
 				}
 				return
@@ -532,7 +556,13 @@ func runC03(c *wk.Ctx) {
 						break
 					}
 					c.Eval(wk.Hash64(descr, cmpx.Canon(m)), true)
-					judgeUnserialize(c, "C03", t, shape, env, m, descr, "sampled, one property dropped")
+					if native, acc := judgeUnserialize(c, "C03", t, shape, env, gen.CopyRaw(m), descr, "sampled, one property dropped"); acc && native != nil {
+						// the defaults filled in belong to the caller now: overwrite them in place and ask again
+						if scramble(reflect.ValueOf(&native).Elem(), 0) > 0 {
+							c.Count("results_overwritten_in_place")
+							judgeUnserialize(c, "C03", t, shape, env, gen.CopyRaw(m), descr, "sampled, one property dropped, after the previous result was overwritten in place")
+						}
+					}
 				}
 				pv, _ := gen.Perturb(r, gen.CopyRaw(raw))
 				judgeUnserialize(c, "C03", t, shape, env, pv, descr, "sampled, perturbed leaf")
